@@ -19,7 +19,8 @@ Open Scope Z_scope.
 Inductive cty :=
 | CInt (w : Z) (sg : bool)   (* integer of width w, signed? ; w in {8,16,32,64} *)
 | CBool
-| CPtr (sz : Z)              (* pointer to an object type of size sz; value = address (64 bit) *)
+| CPtr (sz rp : Z)           (* U*: pointer to an object type U of size sz; value = address (64 bit);
+                                rp = sizeof(std::remove_pointer_t<U>): = sz unless U is itself a pointer V* (then sz = 8, rp = sizeof(V)) *)
 | CFlt                       (* floating: value = an opaque code, arithmetic uninterpreted *)
 | CFltW.                     (* a wider floating type used as an intermediate (std::common_type<T, long double>):
                                 same opaque codes, but its arithmetic is a DIFFERENT uninterpreted function: widening,
@@ -38,19 +39,26 @@ Definition ok (t : cty) (x : Z) : bool :=
   match t with
   | CInt w sg => in_int w sg x
   | CBool => (x =? 0) || (x =? 1)
-  | CPtr _ => in_int 64 false x
+  | CPtr _ _ => in_int 64 false x
   | CFlt | CFltW => true
   end.
 
 Definition int_width (w : Z) : bool := (w =? 8) || (w =? 16) || (w =? 32) || (w =? 64).
 Definition int_ty (t : cty) : bool := match t with CInt w _ => int_width w | _ => false end.
-Definition ptr_ty (t : cty) : bool := match t with CPtr sz => 0 <? sz | _ => false end.
+Definition ptr_ty (t : cty) : bool := match t with CPtr sz rp => (0 <? sz) && (0 <? rp) | _ => false end.
 
 Definition is_integral (t : cty) : bool := match t with CInt _ _ | CBool => true | _ => false end.
 Definition unsigned_of (t : cty) : cty := match t with CInt w _ => CInt w false | _ => t end.
 (* std::common_type<T, long double>: a floating T is widened, anything else is not in the vocabulary *)
 Definition widen_flt (t : cty) : cty := match t with CFlt => CFltW | _ => t end.
 Definition ptrdiff_t : cty := CInt 64 true.
+Definition uintptr_t : cty := CInt 64 false.
+(* sizeof(U) and sizeof(std::remove_pointer_t<U>) for T = U* (0 for a T that is not a pointer: outside the vocabulary) *)
+Definition sizeof_pointee (t : cty) : Z := match t with CPtr sz _ => sz | _ => 0 end.
+Definition sizeof_rp_pointee (t : cty) : Z := match t with CPtr _ rp => rp | _ => 0 end.
+(* e * sizeof(X): sizeof has type std::size_t (unsigned 64 bit), the product is computed there *)
+Definition mul_sizeof (a : cty * Z) (n : Z) : cty * Z :=
+  (CInt 64 false, (((snd a) mod 2 ^ 64) * n) mod 2 ^ 64).
 Definition int_t : cty := CInt 32 true.
 
 (* parameters of the semantics: the uninterpreted floating operations, and whether signed overflow of plain
@@ -65,7 +73,7 @@ Definition cast (t : cty) (v : cv) : cv :=
   match t with
   | CInt w sg => (t, norm w sg (snd v))
   | CBool => (t, if snd v =? 0 then 0 else 1)
-  | CPtr _ => (t, snd v)
+  | CPtr _ _ => (t, snd v)
   | CFlt | CFltW => (t, snd v)
   end.
 
@@ -113,10 +121,10 @@ Definition int_bop (S : sem) (op : bop) (t : cty) (x y : Z) : option cv :=
 
 Definition binop (S : sem) (op : bop) (a b : cv) : option cv :=
   match fst a, fst b with
-  | CPtr sz, (CInt _ _) =>
+  | CPtr sz rp, (CInt _ _) =>
       match op with
-      | BAdd => Some (CPtr sz, norm 64 false (snd a + sz * snd b))
-      | BSub => Some (CPtr sz, norm 64 false (snd a - sz * snd b))
+      | BAdd => Some (CPtr sz rp, norm 64 false (snd a + sz * snd b))
+      | BSub => Some (CPtr sz rp, norm 64 false (snd a - sz * snd b))
       | _ => None
       end
   | CFlt, CFlt =>
@@ -140,7 +148,7 @@ Definition binop (S : sem) (op : bop) (a b : cv) : option cv :=
 (* a == b *)
 Definition ceq (S : sem) (a b : cv) : option bool :=
   match fst a, fst b with
-  | CPtr _, CPtr _ => Some (snd a =? snd b)
+  | CPtr _ _, CPtr _ _ => Some (snd a =? snd b)
   | (CFlt | CFltW), (CFlt | CFltW) => Some (feq S (snd a) (snd b))
   | (CInt _ _ | CBool), (CInt _ _ | CBool) =>
       let t := common (promote (fst a)) (promote (fst b)) in
